@@ -49,11 +49,8 @@ Definition identifiers (seq : list pstr) (sst : list chr) (reg : list (key * nat
   : res (option nat * list key) :=
   if negb (length seq =? length sst) then Err eObjectInit
   else let n := length (make_strand_table_list sPlus seq) in
-       dor r <- ident n seq sst reg [];
-       match r with
-       | (None, []) => Err eIndex          (* sorted(cdict)[0] on an empty dict *)
-       | _ => Ok r
-       end.
+       if n =? 0 then Err eObjectInit      (* 'no strands', right after the length test *)
+       else ident n seq sst reg [].
 
 (* ComplexS(sequence, structure) with empty complex registries *)
 Definition construct (seq : list pstr) (sst : list chr) : res (list key) :=
@@ -223,5 +220,102 @@ Fixpoint split_in_domain (fuel : nat) (ptab : tab) : bool :=
               | _ => true
               end
           end
+      end
+  end.
+
+(* ------------------------------------------------------------------ *)
+(* split() with complexes that exist beforehand (all objects stay alive) *)
+
+(* decimal digits of cls.ID in automatic names f'{cls.PREFIX}{cls.ID}' *)
+Fixpoint dec_aux (fuel n : nat) (acc : pstr) : pstr :=
+  match fuel with
+  | 0 => acc
+  | S f => let d := (N.of_nat (n mod 10) + 48)%N in
+           if n <? 10 then d :: acc else dec_aux f (n / 10) (d :: acc)
+  end.
+Definition dec (n : nat) : pstr := dec_aux (S n) n [].
+Definition cplx_prefix : pstr := [99%N].   (* ComplexS.PREFIX = 'c' *)
+
+Fixpoint lookup_name (n : pstr) (m : list (pstr * nat)) : option nat :=
+  match m with
+  | [] => None
+  | (k, v) :: r => if str_eqb n k then Some v else lookup_name n r
+  end.
+
+Record rstate := mkR {
+  r_names : list (pstr * nat);      (* _instanceNames *)
+  r_reg : list (key * nat);         (* _instanceCanon: every rotation key of every object *)
+  r_objs : list (nat * key);        (* what each object shows *)
+  r_next : nat;                     (* number of the next new object *)
+  r_id : nat }.                     (* ComplexS.ID *)
+
+Inductive ccout := CCreated (i : nat) | CReturned (i : nat) | CRaised (k : pstr) (existing : option nat).
+
+(* Singleton.__call__ for ComplexS(seq, sst, name) *)
+Definition cplx_call (st : rstate) (seq : list pstr) (sst : list chr) (name : option pstr)
+  : rstate * ccout :=
+  let nm := match name with Some n => n | None => cplx_prefix ++ dec (r_id st) end in
+  match identifiers seq sst (r_reg st) with
+  | Err k => (st, CRaised k None)
+  | Ok (objC, keys) =>
+      match lookup_name nm (r_names st), objC with
+      | None, None =>
+          let i := r_next st in
+          (mkR ((nm, i) :: r_names st) (map (fun k => (k, i)) keys ++ r_reg st)
+               ((i, (seq, sst)) :: r_objs st) (S i)
+               (match name with Some _ => r_id st | None => S (r_id st) end),
+           CCreated i)
+      | None, Some oc => (st, CRaised eSingleton (Some oc))
+      | Some _, None => (st, CRaised eSingleton None)
+      | Some on, Some oc => if Nat.eqb on oc then (st, CReturned on) else (st, CRaised eSingleton None)
+      end
+  end.
+
+(* the generator body: yields so far, and whether it ended by raising *)
+Fixpoint split_gen (parts : list key) (st : rstate) : rstate * list nat * option pstr :=
+  match parts with
+  | [] => (st, [], None)
+  | p :: r =>
+      match cplx_call st (fst p) (snd p) None with
+      | (st', CCreated i) | (st', CReturned i) =>
+          let '(st'', ys, e) := split_gen r st' in (st'', i :: ys, e)
+      | (st', CRaised k (Some ex)) =>
+          if str_eqb k eSingleton
+          then let '(st'', ys, e) := split_gen r st' in (st'', ex :: ys, e)
+          else (st', [], Some k)
+      | (st', CRaised k None) => (st', [], Some k)
+      end
+  end.
+
+Definition of_ccout (o : ccout) : nat + pstr :=
+  match o with CCreated i | CReturned i => inl i | CRaised k _ => inr k end.
+
+(* a history: complexes made beforehand (sequence, structure, optional name),
+   then the complex to split (same), then split() twice.  Result: the outcome of
+   every constructor call, and for each of the two runs the objects yielded and
+   the exception that ended it (if any), and what every object shows. *)
+Fixpoint make_all (l : list (key * option pstr)) (st : rstate) : rstate * list (nat + pstr) :=
+  match l with
+  | [] => (st, [])
+  | (k, nm) :: r =>
+      let '(st1, o) := cplx_call st (fst k) (snd k) nm in
+      let '(st2, os) := make_all r st1 in (st2, of_ccout o :: os)
+  end.
+
+Definition split_history (pre : list (key * option pstr)) (self : key * option pstr)
+  : list (nat + pstr) * (nat + pstr) *
+    option (res (list nat * option pstr) * res (list nat * option pstr)) * list (nat * key) :=
+  let '(st1, outs) := make_all pre (mkR [] [] [] 0 1) in
+  let '(st2, o) := cplx_call st1 (fst (fst self)) (snd (fst self)) (snd self) in
+  match of_ccout o with
+  | inr k => (outs, inr k, None, r_objs st2)
+  | inl i =>
+      let me := lookup_obj i (r_objs st2) in
+      match split_complex_db (fst me) (snd me) with
+      | Err k => (outs, inl i, Some (Err k, Err k), r_objs st2)
+      | Ok parts =>
+          let '(st3, ys1, e1) := split_gen parts st2 in
+          let '(st4, ys2, e2) := split_gen parts st3 in
+          (outs, inl i, Some (Ok (ys1, e1), Ok (ys2, e2)), r_objs st4)
       end
   end.
